@@ -75,6 +75,10 @@ func getProfile(name string) *Profile {
 	panic("unknown profile " + name)
 }
 
+// totalRewardCap: the documented total of storage rewards (x/node: "400000000000000sao"), halved
+// in ages: age k begins when the counter reaches cap*(1-2^-k).
+const totalRewardCap int64 = 400_000_000_000_000
+
 // DrawConfig draws the swarm configuration of a run.
 func DrawConfig(seed uint64, prof *Profile) Config {
 	r := NewRng(seed).Sub("config")
@@ -118,6 +122,14 @@ func DrawConfig(seed uint64, prof *Profile) Config {
 			c.PoorOwners = append(c.PoorOwners, i)
 		}
 	}
+	// some chains start shortly before a halving of the reward (imported genesis of an old chain)
+	if p := 0.06; n.BlockReward > 0 && r.Chance(map[bool]float64{true: 0.3, false: p}[prof.Name == "reward" || prof.Name == "capacity"]) {
+		k := uint(r.Range(1, 4))
+		n.RewardStart = totalRewardCap - totalRewardCap>>k - n.BlockReward*int64(r.Range(0, 80))
+		if n.RewardStart < 0 {
+			n.RewardStart = 0
+		}
+	}
 	return c
 }
 
@@ -139,6 +151,7 @@ type Gen struct {
 	drain       bool
 	drainStep   int
 	chased      bool
+	runout      bool
 	chase12     int // remaining jumps to the next examination of a stalled long-timeout order
 }
 
@@ -148,6 +161,7 @@ func NewGen(e *Env, prof *Profile) *Gen {
 	g.quiesce = g.horizon
 	g.regenAt = g.r.Range(g.horizon/5, g.horizon*9/10)
 	g.drain = g.r.Chance(0.2) || prof.Drain
+	g.runout = prof.Long && NewRng(e.W.Cfg.Seed).Sub("runout").Chance(0.3)
 	if NewRng(e.W.Cfg.Seed).Sub("chase12").Chance(0.25) {
 		g.chase12 = 3
 	}
@@ -259,6 +273,34 @@ func (g *Gen) Next() *Step {
 		return &s
 	}
 	h := int(e.Seq.Height)
+	if h >= g.horizon && g.runout {
+		// run-out (some long runs): follow the chain until the last paid shard term and the last
+		// model lifetime have ended, so that every end-of-life housekeeping path is executed
+		g.runout = false
+		last := uint64(0)
+		for _, sh := range e.Cur.Order.Shards {
+			if sh.Status != ordertypes.ShardCompleted {
+				continue
+			}
+			end := sh.CreatedAt + sh.Duration
+			for _, ri := range sh.RenewInfos {
+				end += ri.Duration
+			}
+			if end > last {
+				last = end
+			}
+		}
+		for _, m := range e.Cur.Model.Metas {
+			if end := m.CreatedAt + m.Duration; end > last && end < uint64(h)+20000 {
+				last = end
+			}
+		}
+		if last > uint64(h) && last < uint64(h)+9000 {
+			g.horizon = int(last) + 3
+			e.probe("run_out_to_last_expiry")
+			return &Step{Idle: int(last) - h}
+		}
+	}
 	if h >= g.horizon {
 		return nil
 	}
@@ -873,6 +915,12 @@ func (g *Gen) genKind(k string) *Op {
 		if r.Chance(0.4) {
 			op.To = g.pickActor(w.Actors).Idx + 1
 			op.N = int64(r.Intn(3))
+			if r.Chance(0.35) {
+				// somebody else's (or the own) key DID written as a DID URL
+				op.Mode = []string{"frag", "query", "path"}[r.Intn(3)]
+				op.N = 0
+				e.probe("payaddr_with_did_url_spelling")
+			}
 		}
 		return op
 	case "report", "recover":
